@@ -34,7 +34,7 @@ def run_steps(sim, case, extra_ops=None):
     for s in case['steps']:
         if sim.viol:
             break
-        op = table[s[0] % len(table)]
+        op = table[(s[0] % 100) * len(table) // 100]
         r = sim.do_step([op] + list(s[1:]))
         if len(resolved) < 60:
             resolved.append([op, r if r is not False else 'no-op'])
